@@ -25,6 +25,7 @@ CFGS = ["shared", "separate", "shared_secret", "shared_purge", "separate_purge"]
 # the layout strat stores [datetime, result] (early / soft): not with the pickling serializer of shared_secret (the virtual
 # clock replaces datetime.datetime, which pickle cannot look up)
 STRAT_CFGS = ["shared", "separate", "shared_purge", "separate_purge"]
+OPT_LAYOUTS = ["strat+upper", "strat+lock", "strat+unprot", "strat+tc", "strat+upper+tc", "strat+upper+lock", "strat+upper+unprot+tc"]
 LAYOUTS = ["plain", "templ", "decor", "mut"]
 BIGS = [100, 101, 150, 200, 201, 230]
 
@@ -68,7 +69,8 @@ def compare(run: taghist.Runner, answers):
                 d_model = i
             continue
         parts = dict(p.split("=", 1) for p in ans.split(" "))
-        if d_model is None and out != parts["model"]:
+        if d_model is None and out != parts["model"] and not (out.startswith("vs=") and parts["model"].startswith("vs=")):
+            # (`vs=` on both sides: the body of a decorated call ran; whether its result was stored shows in later probes)
             d_model = i
         if i in sets and run.registered and ghost is None and d_model is None:
             die = ",".join(map(str, sets[i][0]))
@@ -323,6 +325,14 @@ def run(chk: Check) -> int:
     nrefresh = chk.budget(520, 6000)
     for i in range(nrefresh):
         cases.append((f"refresh:{i}", STRAT_CFGS[i % len(STRAT_CFGS)], "strat", taghist.gen_refresh(rng, layout("strat"))))
+    # the same functions under the options that change the wrapping path (upper=True, lock=True, protected=False, time_condition=)
+    nopts = chk.budget(420, 6000)
+    for i in range(nopts):
+        lay = OPT_LAYOUTS[i % len(OPT_LAYOUTS)]
+        cfgs = STRAT_CFGS[:2] if "tc" in lay else STRAT_CFGS      # bodies that take time: purge task off
+        cfg = cfgs[(i // len(OPT_LAYOUTS)) % len(cfgs)]
+        gen = taghist.gen_refresh if i % 3 else (lambda rng, l: taghist.gen_strat_history(rng, l, 24))
+        cases.append((f"opts:{i}", cfg, lay, gen(rng, layout(lay))))
     exh3_len = chk.budget(4, 5)
     exh3, nalpha3 = taghist.exhaustive_refresh_cases(layout("strat"), exh3_len)
     for i, ops in enumerate(exh3):
@@ -345,6 +355,7 @@ def run(chk: Check) -> int:
     by_layout: dict[str, int] = {}
     by_cfg: dict[str, int] = {}
     by_stream: dict[str, int] = {}
+    by_option: dict[str, int] = {}
     samples = []
     notes = 0
     sampled: dict[str, int] = {}
@@ -355,7 +366,10 @@ def run(chk: Check) -> int:
         results = run_cases([(cfg, lay, ops) for _, cfg, lay, ops in chunk])
         for (origin, cfg, lay, ops), (r, answers) in zip(chunk, results):
             evaluations += 1
-            lname = "exhaustive" if origin.startswith("exh") else lay.split(":")[0]
+            lname = "exhaustive" if origin.startswith("exh") else lay.split(":")[0].split("+")[0]
+            if "+" in lay:
+                for o in lay.split("+")[1:]:
+                    by_option[o] = by_option.get(o, 0) + 1
             if origin.startswith("exh3"):
                 lname = "exhaustive_strat"
             stream = origin.split(":")[0]
@@ -444,6 +458,7 @@ def run(chk: Check) -> int:
                                "a short-lived direct write under the same tag), each followed by delete_tags of the "
                                "per-argument tag and probes; the generated histories of the other layouts are sampled, not exhaustive",
         "cases_by_stream": by_stream,
+        "cases_by_wrapping_option": by_option,
         "delete_tags_commands_judged": deltags_checked,
         "op_histogram": hist,
         "cases_by_layout": by_layout,
